@@ -16,11 +16,14 @@ fn main() {
     let args = vkit::Args::parse();
     let prop = args.check[..3.min(args.check.len())].to_uppercase();
     let mut rep = vkit::Reporter::new(&prop, args.out.clone());
-    let rt = tokio::runtime::Builder::new_multi_thread().worker_threads(2).enable_all().build().unwrap();
     if args.check == "c13child" {
+        // one blocking thread: every file write of the child happens on the same thread, in
+        // program order (strace counts injected faults per thread)
+        let rt = tokio::runtime::Builder::new_current_thread().max_blocking_threads(1).enable_all().build().unwrap();
         let code = rt.block_on(c13::child(&args));
         std::process::exit(code);
     }
+    let rt = tokio::runtime::Builder::new_multi_thread().worker_threads(2).enable_all().build().unwrap();
     match args.check.as_str() {
         "c01" => rt.block_on(c01::run(&args, &mut rep)),
         "c02" => rt.block_on(c02::run(&args, &mut rep)),
